@@ -59,7 +59,7 @@ def rule_idemp(ctx):
     okf = f[0] == "not" and f[1][0] == "p" and f[1][1].endswith("is_empty") and norm(f[1][2][0]) == ("arg", 3)
     ctx.ob("IDEMP", "S3 (retain) filters by a predicate of the element's own value: filtering twice = filtering once", okf and not facts.body(clo[1]).partial_writes(1), fn=clo[1], detail=boolsum.show_formula(f))
     # --- S4 checksum: fixpoint of parse . serialise on the canonical text
-    C12.serializer_obligations(ctx, facts, rule="IDEMP-CHECKSUM")
+    C12.serializer_obligations(ctx, facts, rule="IDEMP-CHECKSUM", scope="parsed")
     C12.rule_agree_parser(ctx)  # separator agreement parser <-> serialiser (rule name AGREE-K)
     ok_low = True
     n = 0
@@ -105,7 +105,7 @@ RULES = [
     ("IDEMP", rule_idemp, 5),
     ("IDEMP-SHAPES", lambda ctx: None, 6),
     ("IDEMP-CHECKSUM", lambda ctx: None, 10),
-    ("IDEMP-LOWER", lambda ctx: None, 8),
+    ("IDEMP-LOWER", lambda ctx: None, 6),
     ("IDEMP-PYPI", lambda ctx: None, 4),
     ("FRAME", lambda ctx: None, 3),
     ("AGREE-K", lambda ctx: None, 4),
